@@ -46,6 +46,7 @@ LEAF_SPECS = {
     "wide-cur": (["好x"], [[("x", 1), (None, 1)]], None, (2, 0), None),
     "popup": (["mno"], None, None, None, (1, 0)),
     "sp": (["  "], [[("x", 2)]], None, None, None),
+    "widecomb": (["\u304b\u3099x"], [[("y", 2), (None, 1)]], None, None, None),  # double-width KA followed by a combining mark (U+3099)
 }
 SOLIDS = {"solid": ("s", 3, 2), "solid1": ("#", 1, 1)}
 
@@ -91,7 +92,8 @@ def make_leaf(name):
             a = amap[ci] if ci < len(amap) else None
             c = cmap[ci] if ci < len(cmap) else None
             if w == 0:
-                cells[-1] = (cells[-1][0] + ch, cells[-1][1], cells[-1][2])
+                k = -1 if cells[-1][0] is not None else -2  # after a double-width character: attach to its lead cell
+                cells[k] = (cells[k][0] + ch, cells[k][1], cells[k][2])
                 continue
             cells.append((ch, a, c))
             if w == 2:
@@ -128,7 +130,7 @@ def unary_ops(cols, rows, full=True):
     for i in range(len(ATTR_MAPS)):
         ops.append(("attr", i))
     if not full:
-        keep = {("lr", -1, 0), ("lr", 0, -1), ("lr", -1, -1), ("lr", 1, 0), ("lr", -2, 1), ("tb", -1, 0), ("tb", 0, -1), ("tb", 0, 2), ("tb", 1, 1), ("tb", -2, 0), ("attr", 0), ("wrap",)}
+        keep = {("lr", -1, 0), ("lr", 0, -1), ("lr", -1, -1), ("lr", 1, 0), ("lr", -2, 1), ("lr", 0, 1), ("lr", 0, 2), ("lr", 2, 0), ("lr", 1, 1), ("tb", 0, 1), ("tb", 1, 0), ("tb", -1, 0), ("tb", 0, -1), ("tb", 0, 2), ("tb", 1, 1), ("tb", -2, 0), ("attr", 0), ("wrap",)}
         ops = [o for o in ops if o in keep or o[0] in ("trim", "trimend")]
     return ops
 
@@ -613,7 +615,7 @@ def run(tier, R):
     Lh = [("leaf", n) for n in leaves]
     for h1 in Lh:
         tasks.append(("ops", h1, Lh))
-    inner_leaves = Lh if tier == "thorough" else [("leaf", n) for n in ("ab", "wide2", "tall3", "tall4", "two2", "attr", "solid", "wide-cur", "dec")]
+    inner_leaves = Lh if tier == "thorough" else [("leaf", n) for n in ("ab", "wide2", "tall3", "tall4", "two2", "attr", "solid", "wide-cur", "dec", "widecomb")]
     outer_leaves = Lh if tier == "thorough" else [("leaf", n) for n in ("tall4", "tall3", "wide2", "ab", "wattr", "solid1", "abc-cur")]
     pairs = list(itertools.product(inner_leaves, repeat=2))
     for part in chunks(pairs, 2 if tier == "quick" else 1):
